@@ -11,6 +11,7 @@ pub enum Family {
     C04,
     C05,
     C06,
+    C07,
     C08,
     C11,
     C12,
@@ -26,6 +27,7 @@ impl Family {
             "C04" => Family::C04,
             "C05" => Family::C05,
             "C06" => Family::C06,
+            "C07" => Family::C07,
             "C08" => Family::C08,
             "C11" => Family::C11,
             "C12" => Family::C12,
@@ -41,6 +43,7 @@ impl Family {
             Family::C04 => "C04",
             Family::C05 => "C05",
             Family::C06 => "C06",
+            Family::C07 => "C07",
             Family::C08 => "C08",
             Family::C11 => "C11",
             Family::C12 => "C12",
@@ -56,6 +59,7 @@ pub const ALL_FAMILIES: &[Family] = &[
     Family::C04,
     Family::C05,
     Family::C06,
+    Family::C07,
     Family::C08,
     Family::C11,
     Family::C12,
@@ -70,6 +74,7 @@ pub fn generate(f: Family, ch: &mut Choices) -> Plan {
         Family::C04 => gen_c04(ch),
         Family::C05 => gen_outbound(OutKind::C05, ch),
         Family::C06 => gen_outbound(OutKind::C06, ch),
+        Family::C07 => gen_c07(ch),
         Family::C08 => gen_outbound(OutKind::C08, ch),
         Family::C11 => gen_c11(ch),
         Family::C12 => gen_c12(ch),
@@ -586,6 +591,181 @@ fn gen_c12(ch: &mut Choices) -> Plan {
     }
     plan.ending = Ending::Settle;
     plan.max_steps = 15_000;
+    plan
+}
+
+
+// ------------------------------------------------------------------------------------------
+// C07: however a connection ends, it is torn down completely and exactly once
+
+/// A few byte strings no MQTT decoder accepts.
+pub fn undecodable(ch: &mut Choices) -> (Vec<u8>, &'static str) {
+    match ch.choose(4) {
+        0 => (vec![0x00, 0x00], "reserved packet type 0"),
+        1 => (vec![0x30, 0xff, 0xff, 0xff, 0xff, 0x01], "remaining length with a fifth continuation byte"),
+        2 => (vec![0x62, 0x01, 0x00], "PUBREL with a one-byte body"),
+        _ => (vec![0x82, 0x02, 0x00, 0x01], "SUBSCRIBE without a filter"),
+    }
+}
+
+fn gen_c07(ch: &mut Choices) -> Plan {
+    let role = pick_role(ch);
+    let ver = role.ver();
+    let v5 = ver == Ver::V5;
+    let mut plan = base_plan("C07", role, ch);
+    plan.cfg.use_router = false;
+    plan.cfg.ctl_gated = ch.chance(1, 2);
+    plan.w_ctl = *ch.pick(&[[1u32, 0, 0], [2, 1, 1]]);
+    plan.p_immediate = *ch.pick(&[0u32, 300, 1000]);
+    plan.w_payload = *ch.pick(&[[1u32, 0, 0], [2, 2, 1]]);
+    plan.cfg.min_chunk = *ch.pick(&[0u32, 16, 32 * 1024]);
+    plan.cfg.max_payload_buf = *ch.pick(&[32 * 1024usize, 64]);
+    // -- base scenario: inbound publishes with gated handlers, some with payloads that arrive in pieces
+    let n_in = ch.choose(5);
+    for i in 0..n_in {
+        let qos = if role.is_server() || ch.chance(1, 2) { ch.choose(3) as u8 } else { ch.choose(2) as u8 };
+        let len = *ch.pick(&[2usize, 40, 300, 2000]);
+        let pid = if qos > 0 { Some(10 + i as u16) } else { None };
+        let mut p = mk_publish(ver, ch, i, qos, pid, len);
+        p.dup = false;
+        plan.peer.script.push(step(Pkt::Publish(p), ver, Pre::Connected));
+        if qos == 2 && ch.chance(1, 2) {
+            plan.peer.script.push(step(Pkt::PubRel(Ack::ok(pid.unwrap())), ver, Pre::SawPubRec(pid.unwrap(), 1)));
+        }
+        if role.is_server() && ch.chance(1, 4) {
+            let p = match ch.choose(3) {
+                0 => Pkt::PingReq,
+                1 => Pkt::Subscribe(rc::Subscribe { pid: 40 + i as u16, props: Vec::new(), filters: vec![(format!("f/{i}"), 1)] }),
+                _ => Pkt::Unsubscribe(rc::Unsubscribe { pid: 50 + i as u16, props: Vec::new(), filters: vec![format!("f/{i}")] }),
+            };
+            plan.peer.script.push(step(p, ver, Pre::Connected));
+        }
+    }
+    // -- outbound sends awaiting acks or parked on the window
+    if ch.chance(2, 3) {
+        let limit = 1 + ch.choose(2) as u16;
+        match role {
+            Role::S5 | Role::S3 | Role::C3 => plan.cfg.max_send = limit,
+            Role::C5 => plan.peer.connack_props.push((33, PropVal::U16(limit))),
+        }
+        let n = 1 + ch.choose(3);
+        for _ in 0..n {
+            let mut ops = Vec::new();
+            match ch.choose(6) {
+                0 | 1 => ops.push(AppOp::PubQ1 { len: ch.choose(20), pid: None }),
+                2 => {
+                    ops.push(AppOp::PubQ2 { len: 3, pid: None });
+                    ops.push(AppOp::Release);
+                }
+                3 => {
+                    if role.is_server() {
+                        ops.push(AppOp::PubQ0 { len: 5 });
+                    } else {
+                        ops.push(AppOp::Subscribe { n: 1, pid: None });
+                    }
+                }
+                4 => ops.push(AppOp::StreamQ1 { size: 10, chunks: vec![4, 6], pid: None }),
+                _ => ops.push(AppOp::Ready),
+            }
+            if ch.chance(1, 3) {
+                ops.push(AppOp::PubQ1 { len: 1, pid: None });
+            }
+            plan.senders.push(ops);
+        }
+        plan.peer.auto_ack = ch.chance(1, 2);
+    }
+    // -- back-pressure
+    if ch.chance(1, 3) {
+        plan.faults.p_wr_stall = 30;
+        plan.cfg.wr_hw = 64;
+        plan.cfg.wr_lw = 16;
+    }
+    // -- the termination cause
+    let span = 20 + 15 * (plan.peer.script.len() as u32 + plan.senders.len() as u32);
+    match ch.choose(10) {
+        0 => plan.faults.fin_at_step = Some(1 + u64::from(ch.choose(span))),
+        1 => plan.faults.rst_at_step = Some(1 + u64::from(ch.choose(span))),
+        2 => plan.faults.wr_err_at_step = Some(1 + u64::from(ch.choose(span))),
+        3 => {
+            // undecodable input somewhere in the stream, or a packet cut short followed by FIN
+            let at = ch.choose(plan.peer.script.len() as u32 + 1) as usize;
+            if ch.chance(2, 3) {
+                let (bytes, what) = undecodable(ch);
+                plan.peer.script.insert(at, PeerStep { pre: Pre::Connected, bytes, pkt: None, corrupt: Some(what.to_string()), then_close: None });
+            } else {
+                let full = rc::encode(ver, &Pkt::Publish(mk_publish(ver, ch, 90, 1, Some(90), 300)));
+                let keep = 1 + ch.choose(full.len() as u32 - 1) as usize;
+                plan.peer.script.insert(
+                    at,
+                    PeerStep { pre: Pre::Connected, bytes: full[..keep].to_vec(), pkt: None, corrupt: Some(format!("PUBLISH cut after {keep} bytes, then FIN")), then_close: Some(false) },
+                );
+            }
+        }
+        4 => {
+            // protocol violation
+            let at = ch.choose(plan.peer.script.len() as u32 + 1) as usize;
+            let p = if role.is_server() && ch.chance(1, 2) {
+                Pkt::Connect(Connect::new(ver, "c0", 60_000))
+            } else if v5 {
+                let mut p = mk_publish(ver, ch, 91, 1, Some(91), 2);
+                p.topic = String::new();
+                p.props.retain(|(id, _)| *id != 35);
+                p.props.push((35, PropVal::U16(7)));
+                Pkt::Publish(p)
+            } else {
+                // packet id already in use (first one held by its handler)
+                plan.p_immediate = 0;
+                let a = mk_publish(ver, ch, 92, 1, Some(92), 2);
+                plan.peer.script.insert(at, step(Pkt::Publish(a), ver, Pre::Connected));
+                Pkt::Publish(mk_publish(ver, ch, 93, 1, Some(92), 2))
+            };
+            let at = (at + 1).min(plan.peer.script.len());
+            plan.peer.script.insert(at, step(p, ver, Pre::Connected));
+        }
+        5 => {
+            // handler failures
+            plan.w_outcome = [1, 0, 2];
+            plan.w_proto = [1, 0, 1];
+        }
+        6 => {
+            // keep-alive expiry: the peer goes silent
+            if role.is_server() {
+                plan.peer.connect.keep_alive = 1 + ch.choose(2) as u16;
+            } else {
+                plan.cfg.client_keepalive_s = 1 + ch.choose(2) as u16;
+                // the peer does not answer PINGREQ
+                plan.peer.auto_ack = false;
+            }
+            plan.horizon_ms = 12_000;
+        }
+        7 => {
+            // local close
+            let op = match ch.choose(if v5 { 4 } else { 2 }) {
+                0 => AppOp::Close,
+                1 => AppOp::ForceClose,
+                2 => AppOp::CloseReason(0x8b),
+                _ => AppOp::CloseNoReason,
+            };
+            let mut ops = Vec::new();
+            if ch.chance(1, 2) {
+                ops.push(AppOp::PubQ1 { len: 2, pid: None });
+            }
+            ops.push(op);
+            if ch.chance(1, 2) {
+                ops.push(AppOp::PubQ1 { len: 2, pid: None });
+            }
+            plan.senders.push(ops);
+        }
+        8 => {
+            // the peer says goodbye
+            let at = ch.choose(plan.peer.script.len() as u32 + 1) as usize;
+            let code = if v5 { *ch.pick(&[0u8, 0x04, 0x81]) } else { 0 };
+            plan.peer.script.insert(at, step(Pkt::Disconnect(rc::Disconnect { code, props: Vec::new() }), ver, Pre::Connected));
+        }
+        _ => {} // nothing special: the closing FIN of the run ends the connection
+    }
+    plan.ending = Ending::SettleThenFin;
+    plan.max_steps = 12_000;
     plan
 }
 
